@@ -31,7 +31,23 @@ HOURLY_PROFILES = {
     # (a column name as feeds deliver them: mixed case, with a space)
     "supp": {"supplemental_time_series_columns": ["Wind Speed", OCC_NAME]},
     "supp-explicit": {"train_features": ["temperature"], "supplemental_time_series_columns": [OCC_NAME, "Wind Speed"]},
+    # every enumerated alternative the settings tree accepts (one profile per alternative)
+    "nobins": {"temperature_bin": None},
+    "nointercept": {"elasticnet": {"fit_intercept": False}},
+    "edge-rate": {"temperature_bin": {"edge_bin_rate": 0.05}},
+    "cluster-silhouette": {"temporal_cluster": {"score_metric": "silhouette", "recluster_count": 1}},
+    "cluster-silmed": {"temporal_cluster": {"score_metric": "silhouette_median", "recluster_count": 1}},
+    "cluster-db": {"temporal_cluster": {"score_metric": "davies-bouldin", "recluster_count": 1}},
+    "cluster-manhattan": {"temporal_cluster": {"distance_metric": "manhattan", "recluster_count": 1}},
+    "cluster-cosine": {"temporal_cluster": {"distance_metric": "cosine", "recluster_count": 1}},
+    "cluster-seuclid": {"temporal_cluster": {"distance_metric": "seuclidean", "recluster_count": 1}},
+    "wavelet-db3": {"temporal_cluster": {"wavelet_name": "db3", "wavelet_n_levels": 3}},
+    "enet-random": {"elasticnet": {"selection": "random"}},
+    "minsize": {"temporal_cluster": {"min_cluster_size": 3, "n_cluster_upper": 8}},
 }
+# the alternatives above that are not in FAMILIES_QUICK: driven by C01 in both tiers (its statement quantifies over every accepted profile)
+HOURLY_ALTERNATIVES = ["nobins", "nointercept", "edge-rate", "cluster-silhouette", "cluster-silmed", "cluster-db", "cluster-manhattan", "cluster-cosine", "cluster-seuclid",
+                       "wavelet-db3", "enet-random", "minsize", "bins8", "noedge", "clusters6"]
 
 
 def make_daily_model(profile):
